@@ -33,7 +33,10 @@ Inductive content :=
 | CManifest (f : fmt) (entries : list string)     (* data-file paths exactly as written *)
 | CList (f : fmt) (manifests : list string)       (* manifest paths exactly as written *)
 | CMarker (payload : option string)               (* Some p: JSON payload with "file_path" = p; None: no usable payload *)
-| CGarbage.                                       (* bytes that parse as nothing *)
+| CGarbage                                        (* bytes that parse as nothing (fastavro: ValueError, no Avro header) *)
+| CTruncAvro                                      (* an Avro container cut inside a block (fastavro: EOFError, not caught) *)
+| CJsonEmpty.                                     (* a JSON object without "manifests" / "files": the legacy JSON fallback
+                                                     reads it as an EMPTY list / manifest (damage that still parses) *)
 
 Record obj := mkObj { mtime : Z (* ms *); body : content }.
 Definition store := list (key * obj).
@@ -55,7 +58,10 @@ Definition list_dir (prefix : string) (st : store) : list key :=
 (* FRaise: the call raises (OSError / FileNotFoundError / ClientError ...).
    FBad  : the call returns something unusable: exists -> False; open_file / read_file -> unparseable
            bytes; list_files -> the true listing followed by "../x"; stat / delete -> raises. *)
-Inductive fault := FRaise | FBad.
+(* FRaiseX: the call raises an exception that is NOT an OSError (e.g. botocore ClientError): identical to
+   FRaise everywhere except inside read_manifest(_list)_file, whose Avro attempt only catches
+   (ValueError, IndexError, StopIteration, OSError) -- anything else propagates without the JSON fallback. *)
+Inductive fault := FRaise | FRaiseX | FBad.
 Definition oracle := nat -> option fault.
 Definition no_faults : oracle := fun _ => None.
 
@@ -74,16 +80,16 @@ Definition is_some {A} (x : option A) : bool := match x with Some _ => true | No
 Definition do_exists (o : oracle) (g : gst) (k : key) : option bool * gst :=
   let (f, g') := tick o g (KExists k) in
   match f with
-  | Some FRaise => (None, g')
   | Some FBad => (Some false, g')
+  | Some _ => (None, g')
   | None => (Some (is_some (lookup k (g_store g))), g')
   end.
 
 Definition do_listdir (o : oracle) (g : gst) (p : string) : option (list key) * gst :=
   let (f, g') := tick o g (KListDir p) in
   match f with
-  | Some FRaise => (None, g')
   | Some FBad => (Some (list_dir p (g_store g) ++ ["../x"])%list, g')
+  | Some _ => (None, g')
   | None => (Some (list_dir p (g_store g)), g')
   end.
 
@@ -106,17 +112,21 @@ Definition do_delete (o : oracle) (g : gst) (k : key) : option unit * gst :=
 Definition do_read (o : oracle) (g : gst) (k : key) : option content * gst :=
   let (f, g') := tick o g (KRead k) in
   match f with
-  | Some FRaise => (None, g')
   | Some FBad => (Some CGarbage, g')
+  | Some _ => (None, g')
   | None => (option_map body (lookup k (g_store g)), g')
   end.
 
-Definition do_open (o : oracle) (g : gst) (k : key) : option content * gst :=
+(* open_file + fastavro: OCaught = an exception of the caught tuple (OSError incl. FileNotFoundError),
+   OOther = any other exception, OContent = the stream's bytes *)
+Inductive open_res := OCaught | OOther | OContent (c : content).
+Definition do_open (o : oracle) (g : gst) (k : key) : open_res * gst :=
   let (f, g') := tick o g (KOpen k) in
   match f with
-  | Some FRaise => (None, g')
-  | Some FBad => (Some CGarbage, g')
-  | None => (option_map body (lookup k (g_store g)), g')
+  | Some FRaise => (OCaught, g')
+  | Some FRaiseX => (OOther, g')
+  | Some FBad => (OContent CGarbage, g')
+  | None => (match lookup k (g_store g) with Some ob => OContent (body ob) | None => OCaught end, g')
   end.
 
 (* ---------------------------------------------------------------- reading lists and manifests *)
@@ -132,6 +142,7 @@ Definition avro_parse (w : want) (c : content) : avro_view :=
   | WManifest, CManifest FAvro es => AvOk es
   | WList, CManifest FAvro _ => AvWrong
   | WManifest, CList FAvro _ => AvWrong
+  | _, CTruncAvro => AvWrong
   | _, _ => AvNot
   end.
 
@@ -139,6 +150,7 @@ Definition json_parse (w : want) (c : content) : option (list string) :=
   match w, c with
   | WList, CList FJson ms => Some ms
   | WManifest, CManifest FJson es => Some es
+  | _, CJsonEmpty => Some []
   | _, _ => None
   end.
 
@@ -157,8 +169,9 @@ Definition read_one (w : want) (o : oracle) (g : gst) (k : key) : option (list s
       match do_exists o g1 k with
       | (Some true, g2) =>
           match do_open o g2 k with
-          | (None, g3) => read_fallback w o g3 k           (* OSError is in the caught tuple *)
-          | (Some c, g3) =>
+          | (OCaught, g3) => read_fallback w o g3 k        (* OSError is in the caught tuple *)
+          | (OOther, g3) => (None, g3)
+          | (OContent c, g3) =>
               match avro_parse w c with
               | AvOk xs => (Some xs, g3)
               | AvNot => read_fallback w o g3 k
@@ -299,6 +312,26 @@ Definition gc_run_from (tp : string) (grace now timeout : Z) (o : oracle) (snaps
 Definition gc_run (tp : string) (grace now timeout : Z) (o : oracle) (snaps : list string) (st : store) : result :=
   gc_run_from tp grace now timeout o snaps (mkG 0 st []).
 
+(* ---------------------------------------------------------------- rendering for the correspondence harness *)
+Definition oracle_of (l : list (nat * fault)) : oracle :=
+  fun n => match find (fun p => Nat.eqb (fst p) n) l with Some p => Some (snd p) | None => None end.
+Definition call_code (c : call) : string * string :=
+  match c with
+  | KExists k => ("E", k) | KOpen k => ("O", k) | KRead k => ("R", k)
+  | KListDir p => ("L", p) | KStat k => ("S", k) | KDelete k => ("D", k)
+  end.
+Definition fault_code (f : option fault) : Z :=
+  match f with None => 0 | Some FRaise => 1 | Some FRaiseX => 2 | Some FBad => 3 end.
+Definition out_code (o : outcome) : Z :=
+  match o with
+  | Done => 0 | Aborted PhLists => 1 | Aborted PhManifests => 2 | Aborted PhMarkers => 3
+  | Aborted PhSweepData => 4 | Aborted PhSweepManifests => 5
+  end.
+Definition render (r : result) :=
+  (out_code (r_out r), r_deleted r, (r_reach_lists r, r_reach_manifests r, r_reach_data r), r_protected r,
+   map (fun cf => (call_code (fst cf), fault_code (snd cf))) (rev (g_trace (r_final r))),
+   map fst (g_store (r_final r))).
+
 (* ---------------------------------------------------------------- specification vocabulary
    (independent of normalize_path: this is how every READER resolves a stored path) *)
 Definition resolve (p : string) : string := lstrip_c slash p.
@@ -310,10 +343,15 @@ Definition wf_ref (r : string) : Prop := table_relative (resolve r).
 Definition wf_data_ref (r : string) : Prop := startswith "data/" (resolve r) = true.      (* data files live under data/ *)
 Definition wf_meta_ref (r : string) : Prop := startswith "metadata/" (resolve r) = true.  (* lists, manifests under metadata/ *)
 
+(* what a file IS for every reader of the library (Avro or legacy JSON; a JSON object without the key is empty) *)
+Definition as_list (c : content) : option (list string) :=
+  match c with CList _ ms => Some ms | CJsonEmpty => Some [] | _ => None end.
+Definition as_manifest (c : content) : option (list string) :=
+  match c with CManifest _ es => Some es | CJsonEmpty => Some [] | _ => None end.
 Definition list_at (st : store) (k : key) (ms : list string) : Prop :=
-  exists o f, lookup k st = Some o /\ body o = CList f ms.
+  exists o, lookup k st = Some o /\ as_list (body o) = Some ms.
 Definition manifest_at (st : store) (k : key) (es : list string) : Prop :=
-  exists o f, lookup k st = Some o /\ body o = CManifest f es.
+  exists o, lookup k st = Some o /\ as_manifest (body o) = Some es.
 
 Definition ref_list (snaps : list string) (k : key) : Prop :=
   exists l, In l snaps /\ nonempty l = true /\ k = resolve l.
@@ -347,8 +385,8 @@ Definition live_target (now timeout : Z) (st : store) (k : key) : Prop :=
 Record wf_store (snaps : list string) (st : store) : Prop := {
   wf_nodup : NoDup (map fst st);
   wf_snaps : forall l, In l snaps -> nonempty l = true -> wf_meta_ref l;
-  wf_lists : forall k o f ms m, lookup k st = Some o -> body o = CList f ms -> In m ms -> nonempty m = true -> wf_meta_ref m;
-  wf_manifests : forall k o f es e, lookup k st = Some o -> body o = CManifest f es -> In e es -> wf_data_ref e;
+  wf_lists : forall k o ms m, lookup k st = Some o -> as_list (body o) = Some ms -> In m ms -> nonempty m = true -> wf_meta_ref m;
+  wf_manifests : forall k o es e, lookup k st = Some o -> as_manifest (body o) = Some es -> In e es -> wf_data_ref e;
   (* _register_inflight: marker "<basename>.inflight", payload = the table-relative path of a file under
      data/ or metadata/manifests/ *)
   wf_markers : forall mk o t, lookup mk st = Some o -> is_marker_key mk -> body o = CMarker (Some t) -> nonempty t = true ->
